@@ -12,10 +12,11 @@ Definition KEY_DATA_CAP : Z := 1024.            (* the library's documented cap 
 
 Definition s_frame_type (f : frame) : Z := match f_fc f with fc0 :: _ => s_type fc0 | [] => -1 end.
 
-(* a WPA handshake frame: data frame, zero SNAP OUI, EtherType 0x888E, long enough for the descriptor *)
+(* a WPA handshake frame: data frame, body starting with an LLC/SNAP header (AA AA 03), zero SNAP OUI, EtherType 0x888E, long enough for the descriptor *)
 Definition s_is_handshake (f : frame) : bool :=
   (s_frame_type f =? T_DATA) &&
   (8 <=? zlen (f_body f)) &&
+  (znth (f_body f) 0 =? 170) && (znth (f_body f) 1 =? 170) && (znth (f_body f) 2 =? 3) &&     (* LLC with SNAP: AA AA 03 *)
   (znth (f_body f) 3 =? 0) && (znth (f_body f) 4 =? 0) && (znth (f_body f) 5 =? 0) &&
   (be16 (f_body f) 6 =? ETHERTYPE_EAPOL) &&
   (EAPOL_KEY_MIN <=? zlen (f_body f)).
